@@ -9,6 +9,10 @@ from vlib.ref import dft as rdft
 from vlib.ref import plane_model as pm
 from vlib.runner import Skip, Violation, hyp, lentil_call
 
+# the check's own calls are issued with keywords or positionally in the documented order (vlib/callforms.py)
+from vlib import callforms as _cf
+lentil = _cf.proxy(lentil)
+
 RULE = ("pupil chains (1-3 planes) on drawn apertures with drawn optical sampling, output shape, propagation "
         "shape, oversampling, output mask and direction; non-trivial = support has >= 3 samples and is not "
         "point-symmetric about the origin sample; distinct = distinct canonical descriptors")
